@@ -262,6 +262,9 @@ def check_fuse_roots(ctx, graph, keys, what):
     ctx.eq("fuse_roots: consumers merged with their root layers (" + what + ")", mm, real)
     if real[0] == "ok" and real[1]:
         ctx.branch("fuseroots-merged")
+        pos = {x: i for i, x in enumerate(by_dict)}
+        if any(pos[c] < pos[d] for c, ds in real[1] for d in ds):
+            ctx.branch("fuseroots-consumer-visited-before-its-roots")
         if len(real[1]) >= 2:
             ctx.branch("fuseroots-merged-twice")
         if any(len(ds) >= 3 for _, ds in real[1]):
@@ -341,7 +344,11 @@ def gen_graph(rng):
         keys += rng.sample(range(n), rng.randint(1, min(2, n)))
     if rng.random() < 0.1:
         keys.append(-1)                                # a key of no layer
-    return {"layers": layers, "keys": sorted(set(keys)), "fuse": rng.random() < 0.85, "tuplekeys": rng.random() < 0.7}
+    order = list(range(n))
+    if rng.random() < 0.3:
+        rng.shuffle(order)
+    return {"layers": layers, "keys": sorted(set(keys)), "fuse": rng.random() < 0.85, "tuplekeys": rng.random() < 0.7,
+            "order": order}
 
 
 def gen_roots_graph(rng):
@@ -389,7 +396,10 @@ def gen_roots_graph(rng):
             top = [consumer([top[0], l3], ann)] + top[1:]
     if rng.random() < 0.1:
         layers[rng.randrange(len(layers))]["dangling"] = True
-    return {"layers": layers, "keys": sorted(set(top)), "fuse": True, "tuplekeys": True}
+    order = list(range(len(layers)))
+    if rng.random() < 0.5:
+        rng.shuffle(order) if rng.random() < 0.5 else order.reverse()
+    return {"layers": layers, "keys": sorted(set(top)), "fuse": True, "tuplekeys": True, "order": order}
 
 
 def build_graph(spec):
@@ -438,6 +448,9 @@ def build_graph(spec):
             deps[nm] = {"L%d" % s for s, _ in L["args"] if s is not None}
         if L.get("dangling"):
             deps[nm] = set(deps[nm]) | {"nolayer-" + nm}
+    if spec.get("order"):
+        # insertion order of `graph.layers` (the walk of `fuse_roots` follows it; the set of roots of `_optimize_blockwise` too)
+        layers = {"L%d" % i: layers["L%d" % i] for i in spec["order"]}
     g = HighLevelGraph(layers, deps)
     keys = []
     for k in spec["keys"]:
